@@ -21,3 +21,32 @@ def crc32c(data: bytes) -> int:
 
 assert crc16_xmodem(b'123456789') == 0x31C3
 assert crc32c(b'123456789') == 0xE3069283
+
+
+# Table-driven versions for LONG inputs only (the bitwise loops above cost 8 steps per byte). The tables are generated here from
+# the bitwise definitions - not copied from anywhere - and the fast functions are cross-checked against the bitwise ones.
+_T16 = [crc16_xmodem(bytes([i])) for i in range(256)]
+_T32 = []
+for _i in range(256):
+    _c = _i
+    for _ in range(8):
+        _c = (_c >> 1) ^ 0x82F63B78 if _c & 1 else _c >> 1
+    _T32.append(_c)
+
+
+def crc16_xmodem_fast(data: bytes) -> int:
+    crc = 0
+    for b in data:
+        crc = ((crc << 8) & 0xFFFF) ^ _T16[(crc >> 8) ^ b]
+    return crc
+
+
+def crc32c_fast(data: bytes) -> int:
+    crc = 0xFFFFFFFF
+    for b in data:
+        crc = _T32[(crc ^ b) & 0xFF] ^ (crc >> 8)
+    return crc ^ 0xFFFFFFFF
+
+
+for _d in (b'', b'\x00', b'123456789', bytes(range(256)) * 3, b'\xff' * 1000):
+    assert crc16_xmodem_fast(_d) == crc16_xmodem(_d) and crc32c_fast(_d) == crc32c(_d)
